@@ -42,15 +42,20 @@ func UnderTestFailed(format string, args ...any) {
 	}
 	v := V{Key: "set-up-failed " + key, What: "the code under test failed in a step the harness relies on (no fault was injected there): " + what, Case: map[string]any{"setup_failure": what}, NoConfirm: true}
 	if IsWorker() {
-		line, _ := json.Marshal(jobResult{Job: workerJob, Result: json.RawMessage("null"), Fatal: &v})
-		os.Stdout.Write(append(line, '\n'))
-		os.Exit(0)
+		workerFatal(v)
 	}
 	if current == nil {
 		Harness("%s", what)
 	}
 	current.ViolationV(v)
 	current.Finish()
+}
+
+// workerFatal ends a worker process with a violation for the parent.
+func workerFatal(v V) {
+	line, _ := json.Marshal(jobResult{Job: workerJob, Result: json.RawMessage("null"), Fatal: &v})
+	os.Stdout.Write(append(line, '\n'))
+	os.Exit(0)
 }
 
 // WorkerPoisoned, when set, is asked after every job whether this worker
